@@ -441,6 +441,23 @@ func c13Levels(tier string) []core.Level {
 			}
 		}
 	}})
+	lv = append(lv, core.Level{Name: "the twig escape filter on long values: a 2- / 3- / 4-byte character or '<' at every offset within 5 bytes of the multiples of 1024 up to 16384 and of 32768, 65536, 131072, x 5 strategies (and through auto-escaping)", Gen: func(emit func(core.Case)) {
+		var bases []int
+		for b := 1024; b <= 16384; b += 1024 {
+			bases = append(bases, b)
+		}
+		bases = append(bases, 32768, 65536, 131072, 512, 256, 128, 64)
+		for _, b := range bases {
+			for e := range escapers {
+				for ch := 0; ch < 4; ch++ {
+					emit(core.Case{Fam: "twiglong", N: []int{b, e, ch, 0}})
+					if escapers[e].name == "html" {
+						emit(core.Case{Fam: "twiglong", N: []int{b, e, ch, 1}})
+					}
+				}
+			}
+		}
+	}})
 	lv = append(lv, core.Level{Name: "the twig escape filter (on a variable and on the result of an expression) with every strategy on every Unicode scalar value as a value of its own, doubled and between a letter and a digit (256 code points per execution): the escaper's own output, no shortcut for 'harmless' values", Gen: func(emit func(core.Case)) {
 		for e := range escapers {
 			for b := 0; b <= 0x10ff; b++ {
@@ -653,6 +670,43 @@ func c13Run(c core.Case) core.Result {
 				}
 			}
 			return core.Violation("filter-differs", fmt.Sprintf("%q over block %#x renders more lines than values", src, c.N[0]*256))
+		}
+		return core.Okay(true, "ok")
+	case "twiglong":
+		// the escape filter on long values: a multi-byte character placed at every offset around the multiples of 4096
+		// (and of 1024 / 65536), the rest ASCII - block-wise processing must not cut through a character
+		e := escapers[c.N[1]]
+		base, ch := c.N[0], []string{"é", "€", "\U0001F600", "<"}[c.N[2]]
+		var vs []stick.Value
+		var want strings.Builder
+		for p := base - 5; p <= base+1; p++ {
+			if p < 0 {
+				continue
+			}
+			v := strings.Repeat("a", p) + ch + strings.Repeat("b", 9) + ch
+			vs = append(vs, v)
+			o, _ := safeEscape(e.fn, v)
+			want.WriteString(o + "\n")
+		}
+		src := "{% for v in vs %}{{ v|escape('" + e.name + "')|raw }}\n{% endfor %}"
+		if c.N[3] == 1 && e.name == "html" {
+			src = "{% for v in vs %}{{ v }}\n{% endfor %}" // auto-escaping of an inline (html) template
+		}
+		out, err, pan := tryExec(twig.New(nil), src, map[string]stick.Value{"vs": vs})
+		if err != nil || pan != "" {
+			return core.Violation("panic", fmt.Sprintf("%q over values of about %d bytes: %v %s", src, base, err, pan))
+		}
+		if out != want.String() {
+			gl, wl := strings.Split(out, "\n"), strings.Split(want.String(), "\n")
+			for i := range wl {
+				if i >= len(gl) || gl[i] != wl[i] {
+					g := ""
+					if i < len(gl) {
+						g = gl[i]
+					}
+					return core.Violation("filter-differs", fmt.Sprintf("escape('%s') of %d x 'a' + %q + ...: the filter gives ...%q, the escaper ...%q", e.name, base-5+i, ch, tail(g, 60), tail(wl[i], 60)))
+				}
+			}
 		}
 		return core.Okay(true, "ok")
 	case "twigfilter":
